@@ -212,6 +212,26 @@ def main(prop):
             rep.inconclusive.append("work semantics mismatch on %s: model predicts %d entries of %s, gdb counts %d" % (show(s), pred, fn, real))
         else:
             rep.tv_cases += 1
+    if prop == "C06":
+        # a function admitted with fewer arguments than it reads panics on args.first().unwrap(): the arity table of
+        # func.rs must be the one of XPath 1.0 section 4 (shared with C09)
+        try:
+            import c09
+            import kharness
+            I0 = kharness.new_interp("debug")
+            entries, bad = c09.arity_obligations(rep, I0)
+            rep.obligation("C06.s.arity-table", "violated" if bad else "holds", reach="sat", detail=bad, functions=len(entries))
+            for b in bad:
+                name = b.split()[0]
+                lo = entries.get(name, (0, 0))[0]
+                expr = "%s(%s)" % (name, ", ".join(["1"] * lo))
+                rr = rp.run({"op": "query", "doc": "<r/>", "input": expr})
+                rep.replays += 1
+                if "panic" in rr or "died" in rr:
+                    rep.violation("C06.s.arity-table", {"op": "query", "input": expr, "doc": "<r/>", "property": "C06"}, "%s; %s panics: %s" % (b, expr, str(rr)[:100]))
+                    break
+        except Exception as e:  # noqa
+            rep.inconclusive.append("arity table: %s" % e)
     jobs = [(prop, "free", L, timeout_s, args.seed) for L in free] + [(prop, "tpl:" + n, p, timeout_s, args.seed) for n, p in tpl]
     jobs.sort(key=lambda j: -(j[2] if isinstance(j[2], int) else 30))
     with mp.Pool(min(args.jobs, len(jobs))) as pool:
